@@ -110,8 +110,12 @@ func (e *specEnv) eval(s *SExpr) T {
 	case "nil":
 		return T{S: "0", Ty: types.Typ[types.UntypedNil]}
 	case "result":
+		// a parameter or local actually named "result" takes precedence
+		if v, ok := e.lookupVar("result"); ok {
+			return v
+		}
 		if len(e.results) == 0 {
-			return e.fail("no result in this context")
+			return e.evalIdent("result")
 		}
 		return e.results[0]
 	case "ident":
@@ -501,6 +505,10 @@ func (e *specEnv) evalCall(s *SExpr) T {
 		// bigval(p): mathematical value of *big.Int p
 		p := e.eval(s.Args[0])
 		return mkMath(x.bigVal(e.cur(), p.S))
+	case "bytes2big":
+		b := e.eval(s.Args[0])
+		x.d.declareFun("bytes2big", []string{"(Slc Int)"}, "Int")
+		return mkMath(app("bytes2big", b.S))
 	case "dyntype":
 		p := e.eval(s.Args[0])
 		return mkMath(app("dyntype", p.S))
